@@ -224,3 +224,9 @@ def run(ctx, fb, cfg):
     check_store(ctx, lib, R + "K1K6.no-silent-removal")
     check_with_cstore(ctx, lib, R + "K6.with-cstore")
     check_process_extension(ctx, lib, R + "K3.extension-hook")
+
+
+def run_once(ctx, tier):
+    import witness
+
+    witness.run(ctx, "C22", ['w6_cstore_private'])
